@@ -8,7 +8,7 @@ CFG = dict(
          "-0, 2^53 and 2^53+1, fractions; bools; NULL; missing fields) used in mode enc (encodeKey through its accessor, tuple and single key), "
          "tbl (MemoryTableSource constructor/Upsert/Delete/Lookup sequences), sql (EmitSync interleaved with UpsertTable/Delete; INNER/LEFT, with and "
          "without stream/table alias, reversed ON sides, WHERE on a joined column) or sqlagg (GROUP BY a joined column with CountingWindow(N)); "
-         "distinct = distinct (cfg, op list)",
+         "distinct = distinct (cfg, op list) Added late: every ON equality has its own orientation (bit mask `swap`); rows sent before the table is registered (`early`); a rejected table write (`badups`); a stream column only the rows with an odd id carry (`note`). Every fifth case runs under WithHighPerformance (`preset high`), for C05/C06/C12/C13/C14/C16/C20 another fifth under WithLowLatency (`preset low`); every seventh case follows a noise prelude (failing statements, malformed rows, panicking sink / function in other instances).",
     assumptions=["strconv.FormatFloat(f,'f',-1,64) is injective on float64 values (hypothesis hinj of the reflecting theorems; its outputs cross the protocol in cfg fmt lines); NaN keys are not generated",
                  "each table op and each row's lookup is one critical section of MemoryTableSource's RWMutex (trusted Go mutex): a history is a list of such sections; "
                  "truly concurrent updates are covered by the theorems' quantification over all histories, not exercised by the quick tier",
